@@ -845,7 +845,7 @@ func (g *lcGen) genAxfer(v *lcView) string {
 			to = g.anyAddr()
 		}
 		hd := v.hold[[2]uint64{snd, aid}]
-		rcv := g.pick(0, to, snd)
+		rcv := g.pick(0, to, snd, cr)
 		amt := g.pick(0, 0, 0, 1, hd.Amount)
 		if rcv == 0 && g.r.Chance(90) {
 			amt = 0
@@ -1062,9 +1062,13 @@ func (g *lcGen) scriptAssets(v *lcView) []string {
 		clw = b
 	}
 	x := g.pick(1, 10, total/2, total)
+	mgr := a
+	if g.r.Chance(25) { // the manager is not the creator and will hold the whole supply when it tries to destroy
+		mgr, x = b, total
+	}
 	var out []string
 	one := func(t string) { out = append(out, "group "+t) }
-	one(g.ph("acfg", a) + fmt.Sprintf(",0,%d,0,%s,%d,0,%d,%d", total, lcB(df), a, frz, clw))
+	one(g.ph("acfg", a) + fmt.Sprintf(",0,%d,0,%s,%d,0,%d,%d", total, lcB(df), mgr, frz, clw))
 	optb := g.ph("axfer", b) + fmt.Sprintf(",%d,0,0,%d,0", aid, b)
 	optc := g.ph("axfer", c) + fmt.Sprintf(",%d,0,0,%d,0", aid, c)
 	if g.r.Chance(40) {
@@ -1087,9 +1091,9 @@ func (g *lcGen) scriptAssets(v *lcView) []string {
 	one(g.ph("axfer", a) + fmt.Sprintf(",%d,%d,0,%d,0", aid, g.pick(0, 1), b))            // into a frozen holding
 	one(g.ph("axfer", clw) + fmt.Sprintf(",%d,%d,%d,%d,0", aid, g.pick(1, x/2, x), b, c)) // clawback from frozen b
 	one(g.ph("axfer", g.pick(a, b, c)) + fmt.Sprintf(",%d,1,%d,%d,0", aid, b, c))         // clawback by somebody (maybe not the clawback address)
-	one(g.ph("acfg", a) + fmt.Sprintf(",%d,0,0,0,0,0,0,0", aid))                          // destroy while others hold
+	one(g.ph("acfg", mgr) + fmt.Sprintf(",%d,0,0,0,0,0,0,0", aid))                        // destroy while others hold
 	if g.r.Chance(50) {
-		one(g.ph("axfer", b) + fmt.Sprintf(",%d,0,0,0,%d", aid, c)) // frozen b closes to a non-creator
+		one(g.ph("axfer", b) + fmt.Sprintf(",%d,0,0,%d,%d", aid, g.pick(0, a, c), c)) // frozen b closes to a non-creator (the zero transfer may name the creator)
 	}
 	one(g.ph("axfer", b) + fmt.Sprintf(",%d,0,0,0,%d", aid, a)) // frozen b closes to the creator
 	if g.r.Chance(30) {
@@ -1098,7 +1102,7 @@ func (g *lcGen) scriptAssets(v *lcView) []string {
 	if g.r.Chance(70) {
 		one(g.ph("axfer", c) + fmt.Sprintf(",%d,0,0,0,%d", aid, a))
 	}
-	one(g.ph("acfg", g.pick(a, b)) + fmt.Sprintf(",%d,0,0,0,0,0,0,0", aid)) // destroy (by the manager or not)
+	one(g.ph("acfg", g.pick(mgr, mgr, a, b)) + fmt.Sprintf(",%d,0,0,0,0,0,0,0", aid)) // destroy (by the manager or not)
 	if g.r.Chance(50) {
 		one(g.ph("axfer", c) + fmt.Sprintf(",%d,0,0,0,%d", aid, g.pick(a, b))) // close out of a destroyed asset
 	}
